@@ -24,12 +24,12 @@ _spec.loader.exec_module(_c01)
 def run(ctx):
     thorough = ctx.tier == "thorough"
     ctx._core_bin = ctx.go_test_build("pipeline")
-    ctx.tlc_expect_ok("EventPoolStd", "EventPoolStd_ok.cfg", timeout=900, deadlock=False,
+    ctx.tlc_expect_ok("EventPoolStd", "EventPoolStd_ok.cfg", timeout=2700, deadlock=False,
                       overrides={"Capacity": "2", "Getters": '{"g1", "g2", "g3"}', "Rounds": "2" if thorough else "1"}, name="EventPoolStd/slots")
-    ctx.tlc_expect_ok("EventPoolLowMem", "EventPoolLowMem_fixed.cfg", timeout=900, deadlock=False,
+    ctx.tlc_expect_ok("EventPoolLowMem", "EventPoolLowMem_fixed.cfg", timeout=2700, deadlock=False,
                       overrides={"Capacity": "2"} if thorough else None, name="EventPoolLowMem/counter")
     out = os.path.join(ctx.scratch, "c05_pools.json")
-    rc, txt = ctx.run_bin(ctx._core_bin, "^TestVerifC05Pools$", env={"VERIF_OUT": out}, timeout=1200)
+    rc, txt = ctx.run_bin(ctx._core_bin, "^TestVerifC05Pools$", env={"VERIF_OUT": out}, timeout=3600)
     if rc != 0 or not os.path.exists(out):
         crash = core.classify_crash(txt)
         if crash is None:
